@@ -266,6 +266,41 @@ func TestVerifC09(t *testing.T) {
 		}
 	}
 
+	// (B2) a large extension block that is NOT replicated (only the first fragment carries it): the later fragments
+	// have more room than the first one, so that the payload-length head of the first and of the later fragments
+	// can differ in width. Every block with CRC-32 (the overhead estimate is exact), every mtu across the
+	// 23/24 and 255/256 boundaries of both capacities.
+	for _, big := range []int{60, 90} {
+		big := big
+		add("B2-unreplicated-block", func(r *vfRng, emit func(string)) {
+			s := vfSpec{name: fmt.Sprintf("big%d", big), src: "dtn://src/", dst: "dtn://n1/app", rpt: "dtn:none",
+				pcrc: CRC32, plCrc: CRC32, lifetime: vfHour,
+				blocks: []vfBlk{{kind: "gen", num: 2, crc: CRC32, typ: 201, data: r.bytes(big)},
+					{kind: "hop", num: 3, flags: ReplicateBlock, crc: CRC32, a: 30, c: 2}}}
+			b, err := s.build(r.bytes(700))
+			if err != nil {
+				emit("# build error " + err.Error())
+				return
+			}
+			n, err := vfNumbersOf(b)
+			if err != nil {
+				emit("# numbers error " + err.Error())
+				return
+			}
+			lo, hi := n.minOverhead+10, n.overhead+300
+			if !thorough {
+				// the windows around the two boundaries of the later fragments' capacity
+				for m := n.minOverhead + 15; m <= n.minOverhead+40; m++ {
+					emit(vfObserveFragment(r, b, m, nil))
+				}
+				lo, hi = n.minOverhead+230, n.overhead+275
+			}
+			for m := lo; m <= hi; m++ {
+				emit(vfObserveFragment(r, b, m, nil))
+			}
+		})
+	}
+
 	// (C) random block mixes x random payload sizes x sampled mtu (boundaries + random)
 	nC := 60
 	if thorough {
